@@ -209,6 +209,43 @@ func Planted(r *rand.Rand) (*Grammar, []string) {
 	// shuffle the non-first rules: diagnostics must not depend on definition order
 	rest := g.Rules[1:]
 	r.Shuffle(len(rest), func(i, j int) { rest[i], rest[j] = rest[j], rest[i] })
+	// names: a third of the grammars spell some of their rules (defined or not) like the things peg makes up itself —
+	// a diagnostic is about the grammar's names whatever they look like ("Action" is a rule of peg.peg itself; the
+	// synthetic rules are called Action<number> and PegText, which no name below equals)
+	if r.Intn(3) == 0 {
+		pool := []string{"Action", "Actions", "ActionX", "Action_1", "Peg", "Text", "PegTex", "PegText2", "Rule", "Memo", "Tokens", "Buffer", "Init", "_x", "A", "a1"}
+		r.Shuffle(len(pool), func(i, j int) { pool[i], pool[j] = pool[j], pool[i] })
+		var olds []string
+		seen := map[string]bool{"R0": true}
+		g.Walk(func(_ *Rule, e *Expr) {
+			if e.K == KRef && !seen[e.Name] {
+				seen[e.Name] = true
+				olds = append(olds, e.Name)
+			}
+		})
+		for _, rl := range g.Rules {
+			if !seen[rl.Name] {
+				seen[rl.Name] = true
+				olds = append(olds, rl.Name)
+			}
+		}
+		r.Shuffle(len(olds), func(i, j int) { olds[i], olds[j] = olds[j], olds[i] })
+		ren := map[string]string{}
+		for k := 0; k < 1+r.Intn(4) && k < len(olds) && k < len(pool); k++ {
+			ren[olds[k]] = pool[k]
+		}
+		for _, rl := range g.Rules {
+			if n, ok := ren[rl.Name]; ok {
+				rl.Name = n
+			}
+		}
+		g.Walk(func(_ *Rule, e *Expr) {
+			if n, ok := ren[e.Name]; ok && e.K == KRef {
+				e.Name = n
+			}
+		})
+		tags = append(tags, "names-like-peg's-own")
+	}
 	g.Number()
 	if d := g.Diagnose(); len(d.Undefined)+len(d.Unused)+len(d.LeftRec)+len(d.Duplicate) == 0 {
 		tags = append(tags, "clean")
